@@ -15,6 +15,10 @@ import (
 	sdk "github.com/cosmos/cosmos-sdk/types"
 	vestingtypes "github.com/cosmos/cosmos-sdk/x/auth/vesting/types"
 	"github.com/cosmos/cosmos-sdk/x/authz"
+	authtypes "github.com/cosmos/cosmos-sdk/x/auth/types"
+	consensustypes "github.com/cosmos/cosmos-sdk/x/consensus/types"
+	govv1 "github.com/cosmos/cosmos-sdk/x/gov/types/v1"
+	tmproto "github.com/cometbft/cometbft/proto/tendermint/types"
 	banktypes "github.com/cosmos/cosmos-sdk/x/bank/types"
 	aoltypes "github.com/medibloc/panacea-core/v2/x/aol/types"
 	didtypes "github.com/medibloc/panacea-core/v2/x/did/types"
@@ -320,6 +324,29 @@ func (bc *BuildCtx) Build(s *MsgSpec) sdk.Msg {
 		cs := coins(s.Coins)
 		return &vestingtypes.MsgCreatePeriodicVestingAccount{FromAddress: s.f("from"), ToAddress: s.f("to"), StartTime: bc.BlockTime.Unix(),
 			VestingPeriods: []vestingtypes.Period{{Length: half, Amount: cs}, {Length: half, Amount: cs}}}
+	case "gov.SubmitParams":
+		// a governance proposal that changes the consensus parameters (block.max_gas / block.max_bytes)
+		maxGas, _ := strconv.ParseInt(s.f("max_gas"), 10, 64)
+		maxBytes, _ := strconv.ParseInt(s.f("max_bytes"), 10, 64)
+		inner := &consensustypes.MsgUpdateParams{
+			Authority: sdk.AccAddress(authtypes.NewModuleAddress("gov")).String(),
+			Block:     &tmproto.BlockParams{MaxBytes: maxBytes, MaxGas: maxGas},
+			Evidence:  &tmproto.EvidenceParams{MaxAgeNumBlocks: 302400, MaxAgeDuration: 504 * time.Hour, MaxBytes: 10000},
+			Validator: &tmproto.ValidatorParams{PubKeyTypes: []string{"ed25519"}},
+		}
+		proposer, _ := sdk.AccAddressFromBech32(s.f("proposer"))
+		m, err := govv1.NewMsgSubmitProposal([]sdk.Msg{inner}, coins(s.Coins), proposer.String(), s.f("metadata"), "consensus parameters", "change block limits")
+		if err != nil {
+			panic(err)
+		}
+		return m
+	case "gov.Vote":
+		id, _ := strconv.ParseUint(s.f("proposal"), 10, 64)
+		opt := govv1.OptionYes
+		if s.f("option") == "no" {
+			opt = govv1.OptionNo
+		}
+		return &govv1.MsgVote{ProposalId: id, Voter: s.f("voter"), Option: opt}
 	case "authz.Grant":
 		var exp *time.Time
 		if s.ExpOffsetMs != 0 {
